@@ -14,18 +14,22 @@ package json
 
 //@ config JSONMarshalFunc != nil
 
+// C02 (integers): the value handed to strconv is the mathematical value of the
+// argument, in base 10; strconv's decimal text is trusted to denote it.
+//@ track strconv.AppendInt, strconv.AppendUint, strconv.AppendBool
+
 //@ var JSONMarshalFunc(v) res, err
 //@   modifies nothing
 //@   ensures err == nil ==> wholevalue(res)
 
 //@ func init()
-//@   props C01 C02
+//@   props C01
 //@   arith int
 //@   flag tags !binary_log
 //@   requires !init$guard
 
 //@ func init#1()
-//@   props C01 C02
+//@   props C01
 //@   arith int
 //@   flag tags !binary_log
 //@   requires forall k in 0..256: noEscapeTable[k] == false
@@ -40,7 +44,7 @@ package json
 // base.go
 
 //@ func (Encoder).AppendKey(e, dst, key) res
-//@   props C01 C02 C03
+//@   props C01 C03
 //@   arith int
 //@   flag tags !binary_log
 //@   flag stream
@@ -51,7 +55,7 @@ package json
 // string.go, bytes.go
 
 //@ func (Encoder).AppendString(e, dst, s) res
-//@   props C01 C02
+//@   props C01
 //@   arith int
 //@   flag tags !binary_log
 //@   flag stream
@@ -62,7 +66,7 @@ package json
 //@     decreases len(s) - i
 
 //@ func appendStringComplex(dst, s, i) res
-//@   props C01 C02
+//@   props C01
 //@   arith int
 //@   flag tags !binary_log
 //@   flag stream
@@ -74,7 +78,7 @@ package json
 //@     decreases len(s) - i
 
 //@ func (Encoder).AppendBytes(e, dst, s) res
-//@   props C01 C02
+//@   props C01
 //@   arith int
 //@   flag tags !binary_log
 //@   flag stream
@@ -85,7 +89,7 @@ package json
 //@     decreases len(s) - i
 
 //@ func appendBytesComplex(dst, s, i) res
-//@   props C01 C02
+//@   props C01
 //@   arith int
 //@   flag tags !binary_log
 //@   flag stream
@@ -97,7 +101,7 @@ package json
 //@     decreases len(s) - i
 
 //@ func (Encoder).AppendHex(e, dst, s) res
-//@   props C01 C02
+//@   props C01
 //@   arith int
 //@   flag tags !binary_log
 //@   flag stream
@@ -114,7 +118,7 @@ package json
 // types.go: markers and scalars
 
 //@ func (Encoder).AppendNil(e, dst) res
-//@   props C01 C02
+//@   props C01
 //@   arith int
 //@   flag tags !binary_log
 //@   requires valueok(dst)
@@ -166,194 +170,254 @@ package json
 //@   ensures len(dst) > 0 ==> len(res) == len(dst) + 1 && mode(res) == ite(mode(dst) == ARR_NEXT, ARR_COMMA, LIST_COMMA)
 
 //@ func (Encoder).AppendBool(e, dst, val) res
-//@   props C01 C02
+//@   props C01
 //@   arith int
 //@   flag tags !binary_log
 //@   requires valueok(dst)
 //@   ensures emitsvalue(res, dst)
 
 //@ func (Encoder).AppendInt(e, dst, val) res
-//@   props C01 C02
+//@   props C01
 //@   arith int
 //@   flag tags !binary_log
 //@   requires valueok(dst)
 //@   ensures emitsvalue(res, dst)
+//@   ensures [C02] ncalls(strconv.AppendInt) == old(ncalls(strconv.AppendInt)) + 1 && callarg(strconv.AppendInt, old(ncalls(strconv.AppendInt)), 1) == int64(val) && callarg(strconv.AppendInt, old(ncalls(strconv.AppendInt)), 2) == 10 && same(res, callres(strconv.AppendInt, old(ncalls(strconv.AppendInt)), 0))
 
 //@ func (Encoder).AppendInts(e, dst, vals) res
-//@   props C01 C02
+//@   props C01
 //@   arith int
 //@   flag tags !binary_log
 //@   requires valueok(dst)
 //@   ensures emitsvalue(res, dst)
+//@   ensures [C02] len(vals) == 0 ==> ncalls(strconv.AppendInt) == old(ncalls(strconv.AppendInt))
+//@   ensures [C02] len(vals) > 0 ==> ncalls(strconv.AppendInt) == old(ncalls(strconv.AppendInt)) + len(vals)
+//@   ensures [C02] forall j in old(ncalls(strconv.AppendInt))..ncalls(strconv.AppendInt): callarg(strconv.AppendInt, j, 1) == int64(vals[j - old(ncalls(strconv.AppendInt))]) && callarg(strconv.AppendInt, j, 2) == 10
 //@   loop 1:
 //@     invariant 0 <= rangeindex + 1 && rangeindex + 1 <= len(vals) - 1
 //@     invariant lex(dst) == 0 && mode(dst) == ARR_NEXT && stk(dst) == pushstk(mode(dst0), stk(dst0)) && prefix(dst, dst0) && len(dst) > len(dst0)
 //@     decreases len(vals) - 1 - (rangeindex + 1)
+//@     invariant [C02] ncalls(strconv.AppendInt) == old(ncalls(strconv.AppendInt)) + rangeindex + 2
+//@     invariant [C02] forall j in old(ncalls(strconv.AppendInt))..ncalls(strconv.AppendInt): callarg(strconv.AppendInt, j, 1) == int64(vals[j - old(ncalls(strconv.AppendInt))]) && callarg(strconv.AppendInt, j, 2) == 10
 
 //@ func (Encoder).AppendUint(e, dst, val) res
-//@   props C01 C02
+//@   props C01
 //@   arith int
 //@   flag tags !binary_log
 //@   requires valueok(dst)
 //@   ensures emitsvalue(res, dst)
+//@   ensures [C02] ncalls(strconv.AppendUint) == old(ncalls(strconv.AppendUint)) + 1 && callarg(strconv.AppendUint, old(ncalls(strconv.AppendUint)), 1) == uint64(val) && callarg(strconv.AppendUint, old(ncalls(strconv.AppendUint)), 2) == 10 && same(res, callres(strconv.AppendUint, old(ncalls(strconv.AppendUint)), 0))
 
 //@ func (Encoder).AppendUints(e, dst, vals) res
-//@   props C01 C02
+//@   props C01
 //@   arith int
 //@   flag tags !binary_log
 //@   requires valueok(dst)
 //@   ensures emitsvalue(res, dst)
+//@   ensures [C02] len(vals) == 0 ==> ncalls(strconv.AppendUint) == old(ncalls(strconv.AppendUint))
+//@   ensures [C02] len(vals) > 0 ==> ncalls(strconv.AppendUint) == old(ncalls(strconv.AppendUint)) + len(vals)
+//@   ensures [C02] forall j in old(ncalls(strconv.AppendUint))..ncalls(strconv.AppendUint): callarg(strconv.AppendUint, j, 1) == uint64(vals[j - old(ncalls(strconv.AppendUint))]) && callarg(strconv.AppendUint, j, 2) == 10
 //@   loop 1:
 //@     invariant 0 <= rangeindex + 1 && rangeindex + 1 <= len(vals) - 1
 //@     invariant lex(dst) == 0 && mode(dst) == ARR_NEXT && stk(dst) == pushstk(mode(dst0), stk(dst0)) && prefix(dst, dst0) && len(dst) > len(dst0)
 //@     decreases len(vals) - 1 - (rangeindex + 1)
+//@     invariant [C02] ncalls(strconv.AppendUint) == old(ncalls(strconv.AppendUint)) + rangeindex + 2
+//@     invariant [C02] forall j in old(ncalls(strconv.AppendUint))..ncalls(strconv.AppendUint): callarg(strconv.AppendUint, j, 1) == uint64(vals[j - old(ncalls(strconv.AppendUint))]) && callarg(strconv.AppendUint, j, 2) == 10
 
 //@ func (Encoder).AppendInt8(e, dst, val) res
-//@   props C01 C02
+//@   props C01
 //@   arith int
 //@   flag tags !binary_log
 //@   requires valueok(dst)
 //@   ensures emitsvalue(res, dst)
+//@   ensures [C02] ncalls(strconv.AppendInt) == old(ncalls(strconv.AppendInt)) + 1 && callarg(strconv.AppendInt, old(ncalls(strconv.AppendInt)), 1) == int64(val) && callarg(strconv.AppendInt, old(ncalls(strconv.AppendInt)), 2) == 10 && same(res, callres(strconv.AppendInt, old(ncalls(strconv.AppendInt)), 0))
 
 //@ func (Encoder).AppendInts8(e, dst, vals) res
-//@   props C01 C02
+//@   props C01
 //@   arith int
 //@   flag tags !binary_log
 //@   requires valueok(dst)
 //@   ensures emitsvalue(res, dst)
+//@   ensures [C02] len(vals) == 0 ==> ncalls(strconv.AppendInt) == old(ncalls(strconv.AppendInt))
+//@   ensures [C02] len(vals) > 0 ==> ncalls(strconv.AppendInt) == old(ncalls(strconv.AppendInt)) + len(vals)
+//@   ensures [C02] forall j in old(ncalls(strconv.AppendInt))..ncalls(strconv.AppendInt): callarg(strconv.AppendInt, j, 1) == int64(vals[j - old(ncalls(strconv.AppendInt))]) && callarg(strconv.AppendInt, j, 2) == 10
 //@   loop 1:
 //@     invariant 0 <= rangeindex + 1 && rangeindex + 1 <= len(vals) - 1
 //@     invariant lex(dst) == 0 && mode(dst) == ARR_NEXT && stk(dst) == pushstk(mode(dst0), stk(dst0)) && prefix(dst, dst0) && len(dst) > len(dst0)
 //@     decreases len(vals) - 1 - (rangeindex + 1)
+//@     invariant [C02] ncalls(strconv.AppendInt) == old(ncalls(strconv.AppendInt)) + rangeindex + 2
+//@     invariant [C02] forall j in old(ncalls(strconv.AppendInt))..ncalls(strconv.AppendInt): callarg(strconv.AppendInt, j, 1) == int64(vals[j - old(ncalls(strconv.AppendInt))]) && callarg(strconv.AppendInt, j, 2) == 10
 
 //@ func (Encoder).AppendUint8(e, dst, val) res
-//@   props C01 C02
+//@   props C01
 //@   arith int
 //@   flag tags !binary_log
 //@   requires valueok(dst)
 //@   ensures emitsvalue(res, dst)
+//@   ensures [C02] ncalls(strconv.AppendUint) == old(ncalls(strconv.AppendUint)) + 1 && callarg(strconv.AppendUint, old(ncalls(strconv.AppendUint)), 1) == uint64(val) && callarg(strconv.AppendUint, old(ncalls(strconv.AppendUint)), 2) == 10 && same(res, callres(strconv.AppendUint, old(ncalls(strconv.AppendUint)), 0))
 
 //@ func (Encoder).AppendUints8(e, dst, vals) res
-//@   props C01 C02
+//@   props C01
 //@   arith int
 //@   flag tags !binary_log
 //@   requires valueok(dst)
 //@   ensures emitsvalue(res, dst)
+//@   ensures [C02] len(vals) == 0 ==> ncalls(strconv.AppendUint) == old(ncalls(strconv.AppendUint))
+//@   ensures [C02] len(vals) > 0 ==> ncalls(strconv.AppendUint) == old(ncalls(strconv.AppendUint)) + len(vals)
+//@   ensures [C02] forall j in old(ncalls(strconv.AppendUint))..ncalls(strconv.AppendUint): callarg(strconv.AppendUint, j, 1) == uint64(vals[j - old(ncalls(strconv.AppendUint))]) && callarg(strconv.AppendUint, j, 2) == 10
 //@   loop 1:
 //@     invariant 0 <= rangeindex + 1 && rangeindex + 1 <= len(vals) - 1
 //@     invariant lex(dst) == 0 && mode(dst) == ARR_NEXT && stk(dst) == pushstk(mode(dst0), stk(dst0)) && prefix(dst, dst0) && len(dst) > len(dst0)
 //@     decreases len(vals) - 1 - (rangeindex + 1)
+//@     invariant [C02] ncalls(strconv.AppendUint) == old(ncalls(strconv.AppendUint)) + rangeindex + 2
+//@     invariant [C02] forall j in old(ncalls(strconv.AppendUint))..ncalls(strconv.AppendUint): callarg(strconv.AppendUint, j, 1) == uint64(vals[j - old(ncalls(strconv.AppendUint))]) && callarg(strconv.AppendUint, j, 2) == 10
 
 //@ func (Encoder).AppendInt16(e, dst, val) res
-//@   props C01 C02
+//@   props C01
 //@   arith int
 //@   flag tags !binary_log
 //@   requires valueok(dst)
 //@   ensures emitsvalue(res, dst)
+//@   ensures [C02] ncalls(strconv.AppendInt) == old(ncalls(strconv.AppendInt)) + 1 && callarg(strconv.AppendInt, old(ncalls(strconv.AppendInt)), 1) == int64(val) && callarg(strconv.AppendInt, old(ncalls(strconv.AppendInt)), 2) == 10 && same(res, callres(strconv.AppendInt, old(ncalls(strconv.AppendInt)), 0))
 
 //@ func (Encoder).AppendInts16(e, dst, vals) res
-//@   props C01 C02
+//@   props C01
 //@   arith int
 //@   flag tags !binary_log
 //@   requires valueok(dst)
 //@   ensures emitsvalue(res, dst)
+//@   ensures [C02] len(vals) == 0 ==> ncalls(strconv.AppendInt) == old(ncalls(strconv.AppendInt))
+//@   ensures [C02] len(vals) > 0 ==> ncalls(strconv.AppendInt) == old(ncalls(strconv.AppendInt)) + len(vals)
+//@   ensures [C02] forall j in old(ncalls(strconv.AppendInt))..ncalls(strconv.AppendInt): callarg(strconv.AppendInt, j, 1) == int64(vals[j - old(ncalls(strconv.AppendInt))]) && callarg(strconv.AppendInt, j, 2) == 10
 //@   loop 1:
 //@     invariant 0 <= rangeindex + 1 && rangeindex + 1 <= len(vals) - 1
 //@     invariant lex(dst) == 0 && mode(dst) == ARR_NEXT && stk(dst) == pushstk(mode(dst0), stk(dst0)) && prefix(dst, dst0) && len(dst) > len(dst0)
 //@     decreases len(vals) - 1 - (rangeindex + 1)
+//@     invariant [C02] ncalls(strconv.AppendInt) == old(ncalls(strconv.AppendInt)) + rangeindex + 2
+//@     invariant [C02] forall j in old(ncalls(strconv.AppendInt))..ncalls(strconv.AppendInt): callarg(strconv.AppendInt, j, 1) == int64(vals[j - old(ncalls(strconv.AppendInt))]) && callarg(strconv.AppendInt, j, 2) == 10
 
 //@ func (Encoder).AppendUint16(e, dst, val) res
-//@   props C01 C02
+//@   props C01
 //@   arith int
 //@   flag tags !binary_log
 //@   requires valueok(dst)
 //@   ensures emitsvalue(res, dst)
+//@   ensures [C02] ncalls(strconv.AppendUint) == old(ncalls(strconv.AppendUint)) + 1 && callarg(strconv.AppendUint, old(ncalls(strconv.AppendUint)), 1) == uint64(val) && callarg(strconv.AppendUint, old(ncalls(strconv.AppendUint)), 2) == 10 && same(res, callres(strconv.AppendUint, old(ncalls(strconv.AppendUint)), 0))
 
 //@ func (Encoder).AppendUints16(e, dst, vals) res
-//@   props C01 C02
+//@   props C01
 //@   arith int
 //@   flag tags !binary_log
 //@   requires valueok(dst)
 //@   ensures emitsvalue(res, dst)
+//@   ensures [C02] len(vals) == 0 ==> ncalls(strconv.AppendUint) == old(ncalls(strconv.AppendUint))
+//@   ensures [C02] len(vals) > 0 ==> ncalls(strconv.AppendUint) == old(ncalls(strconv.AppendUint)) + len(vals)
+//@   ensures [C02] forall j in old(ncalls(strconv.AppendUint))..ncalls(strconv.AppendUint): callarg(strconv.AppendUint, j, 1) == uint64(vals[j - old(ncalls(strconv.AppendUint))]) && callarg(strconv.AppendUint, j, 2) == 10
 //@   loop 1:
 //@     invariant 0 <= rangeindex + 1 && rangeindex + 1 <= len(vals) - 1
 //@     invariant lex(dst) == 0 && mode(dst) == ARR_NEXT && stk(dst) == pushstk(mode(dst0), stk(dst0)) && prefix(dst, dst0) && len(dst) > len(dst0)
 //@     decreases len(vals) - 1 - (rangeindex + 1)
+//@     invariant [C02] ncalls(strconv.AppendUint) == old(ncalls(strconv.AppendUint)) + rangeindex + 2
+//@     invariant [C02] forall j in old(ncalls(strconv.AppendUint))..ncalls(strconv.AppendUint): callarg(strconv.AppendUint, j, 1) == uint64(vals[j - old(ncalls(strconv.AppendUint))]) && callarg(strconv.AppendUint, j, 2) == 10
 
 //@ func (Encoder).AppendInt32(e, dst, val) res
-//@   props C01 C02
+//@   props C01
 //@   arith int
 //@   flag tags !binary_log
 //@   requires valueok(dst)
 //@   ensures emitsvalue(res, dst)
+//@   ensures [C02] ncalls(strconv.AppendInt) == old(ncalls(strconv.AppendInt)) + 1 && callarg(strconv.AppendInt, old(ncalls(strconv.AppendInt)), 1) == int64(val) && callarg(strconv.AppendInt, old(ncalls(strconv.AppendInt)), 2) == 10 && same(res, callres(strconv.AppendInt, old(ncalls(strconv.AppendInt)), 0))
 
 //@ func (Encoder).AppendInts32(e, dst, vals) res
-//@   props C01 C02
+//@   props C01
 //@   arith int
 //@   flag tags !binary_log
 //@   requires valueok(dst)
 //@   ensures emitsvalue(res, dst)
+//@   ensures [C02] len(vals) == 0 ==> ncalls(strconv.AppendInt) == old(ncalls(strconv.AppendInt))
+//@   ensures [C02] len(vals) > 0 ==> ncalls(strconv.AppendInt) == old(ncalls(strconv.AppendInt)) + len(vals)
+//@   ensures [C02] forall j in old(ncalls(strconv.AppendInt))..ncalls(strconv.AppendInt): callarg(strconv.AppendInt, j, 1) == int64(vals[j - old(ncalls(strconv.AppendInt))]) && callarg(strconv.AppendInt, j, 2) == 10
 //@   loop 1:
 //@     invariant 0 <= rangeindex + 1 && rangeindex + 1 <= len(vals) - 1
 //@     invariant lex(dst) == 0 && mode(dst) == ARR_NEXT && stk(dst) == pushstk(mode(dst0), stk(dst0)) && prefix(dst, dst0) && len(dst) > len(dst0)
 //@     decreases len(vals) - 1 - (rangeindex + 1)
+//@     invariant [C02] ncalls(strconv.AppendInt) == old(ncalls(strconv.AppendInt)) + rangeindex + 2
+//@     invariant [C02] forall j in old(ncalls(strconv.AppendInt))..ncalls(strconv.AppendInt): callarg(strconv.AppendInt, j, 1) == int64(vals[j - old(ncalls(strconv.AppendInt))]) && callarg(strconv.AppendInt, j, 2) == 10
 
 //@ func (Encoder).AppendUint32(e, dst, val) res
-//@   props C01 C02
+//@   props C01
 //@   arith int
 //@   flag tags !binary_log
 //@   requires valueok(dst)
 //@   ensures emitsvalue(res, dst)
+//@   ensures [C02] ncalls(strconv.AppendUint) == old(ncalls(strconv.AppendUint)) + 1 && callarg(strconv.AppendUint, old(ncalls(strconv.AppendUint)), 1) == uint64(val) && callarg(strconv.AppendUint, old(ncalls(strconv.AppendUint)), 2) == 10 && same(res, callres(strconv.AppendUint, old(ncalls(strconv.AppendUint)), 0))
 
 //@ func (Encoder).AppendUints32(e, dst, vals) res
-//@   props C01 C02
+//@   props C01
 //@   arith int
 //@   flag tags !binary_log
 //@   requires valueok(dst)
 //@   ensures emitsvalue(res, dst)
+//@   ensures [C02] len(vals) == 0 ==> ncalls(strconv.AppendUint) == old(ncalls(strconv.AppendUint))
+//@   ensures [C02] len(vals) > 0 ==> ncalls(strconv.AppendUint) == old(ncalls(strconv.AppendUint)) + len(vals)
+//@   ensures [C02] forall j in old(ncalls(strconv.AppendUint))..ncalls(strconv.AppendUint): callarg(strconv.AppendUint, j, 1) == uint64(vals[j - old(ncalls(strconv.AppendUint))]) && callarg(strconv.AppendUint, j, 2) == 10
 //@   loop 1:
 //@     invariant 0 <= rangeindex + 1 && rangeindex + 1 <= len(vals) - 1
 //@     invariant lex(dst) == 0 && mode(dst) == ARR_NEXT && stk(dst) == pushstk(mode(dst0), stk(dst0)) && prefix(dst, dst0) && len(dst) > len(dst0)
 //@     decreases len(vals) - 1 - (rangeindex + 1)
+//@     invariant [C02] ncalls(strconv.AppendUint) == old(ncalls(strconv.AppendUint)) + rangeindex + 2
+//@     invariant [C02] forall j in old(ncalls(strconv.AppendUint))..ncalls(strconv.AppendUint): callarg(strconv.AppendUint, j, 1) == uint64(vals[j - old(ncalls(strconv.AppendUint))]) && callarg(strconv.AppendUint, j, 2) == 10
 
 //@ func (Encoder).AppendInt64(e, dst, val) res
-//@   props C01 C02
+//@   props C01
 //@   arith int
 //@   flag tags !binary_log
 //@   requires valueok(dst)
 //@   ensures emitsvalue(res, dst)
+//@   ensures [C02] ncalls(strconv.AppendInt) == old(ncalls(strconv.AppendInt)) + 1 && callarg(strconv.AppendInt, old(ncalls(strconv.AppendInt)), 1) == int64(val) && callarg(strconv.AppendInt, old(ncalls(strconv.AppendInt)), 2) == 10 && same(res, callres(strconv.AppendInt, old(ncalls(strconv.AppendInt)), 0))
 
 //@ func (Encoder).AppendInts64(e, dst, vals) res
-//@   props C01 C02
+//@   props C01
 //@   arith int
 //@   flag tags !binary_log
 //@   requires valueok(dst)
 //@   ensures emitsvalue(res, dst)
+//@   ensures [C02] len(vals) == 0 ==> ncalls(strconv.AppendInt) == old(ncalls(strconv.AppendInt))
+//@   ensures [C02] len(vals) > 0 ==> ncalls(strconv.AppendInt) == old(ncalls(strconv.AppendInt)) + len(vals)
+//@   ensures [C02] forall j in old(ncalls(strconv.AppendInt))..ncalls(strconv.AppendInt): callarg(strconv.AppendInt, j, 1) == int64(vals[j - old(ncalls(strconv.AppendInt))]) && callarg(strconv.AppendInt, j, 2) == 10
 //@   loop 1:
 //@     invariant 0 <= rangeindex + 1 && rangeindex + 1 <= len(vals) - 1
 //@     invariant lex(dst) == 0 && mode(dst) == ARR_NEXT && stk(dst) == pushstk(mode(dst0), stk(dst0)) && prefix(dst, dst0) && len(dst) > len(dst0)
 //@     decreases len(vals) - 1 - (rangeindex + 1)
+//@     invariant [C02] ncalls(strconv.AppendInt) == old(ncalls(strconv.AppendInt)) + rangeindex + 2
+//@     invariant [C02] forall j in old(ncalls(strconv.AppendInt))..ncalls(strconv.AppendInt): callarg(strconv.AppendInt, j, 1) == int64(vals[j - old(ncalls(strconv.AppendInt))]) && callarg(strconv.AppendInt, j, 2) == 10
 
 //@ func (Encoder).AppendUint64(e, dst, val) res
-//@   props C01 C02
+//@   props C01
 //@   arith int
 //@   flag tags !binary_log
 //@   requires valueok(dst)
 //@   ensures emitsvalue(res, dst)
+//@   ensures [C02] ncalls(strconv.AppendUint) == old(ncalls(strconv.AppendUint)) + 1 && callarg(strconv.AppendUint, old(ncalls(strconv.AppendUint)), 1) == uint64(val) && callarg(strconv.AppendUint, old(ncalls(strconv.AppendUint)), 2) == 10 && same(res, callres(strconv.AppendUint, old(ncalls(strconv.AppendUint)), 0))
 
 //@ func (Encoder).AppendUints64(e, dst, vals) res
-//@   props C01 C02
+//@   props C01
 //@   arith int
 //@   flag tags !binary_log
 //@   requires valueok(dst)
 //@   ensures emitsvalue(res, dst)
+//@   ensures [C02] len(vals) == 0 ==> ncalls(strconv.AppendUint) == old(ncalls(strconv.AppendUint))
+//@   ensures [C02] len(vals) > 0 ==> ncalls(strconv.AppendUint) == old(ncalls(strconv.AppendUint)) + len(vals)
+//@   ensures [C02] forall j in old(ncalls(strconv.AppendUint))..ncalls(strconv.AppendUint): callarg(strconv.AppendUint, j, 1) == uint64(vals[j - old(ncalls(strconv.AppendUint))]) && callarg(strconv.AppendUint, j, 2) == 10
 //@   loop 1:
 //@     invariant 0 <= rangeindex + 1 && rangeindex + 1 <= len(vals) - 1
 //@     invariant lex(dst) == 0 && mode(dst) == ARR_NEXT && stk(dst) == pushstk(mode(dst0), stk(dst0)) && prefix(dst, dst0) && len(dst) > len(dst0)
 //@     decreases len(vals) - 1 - (rangeindex + 1)
+//@     invariant [C02] ncalls(strconv.AppendUint) == old(ncalls(strconv.AppendUint)) + rangeindex + 2
+//@     invariant [C02] forall j in old(ncalls(strconv.AppendUint))..ncalls(strconv.AppendUint): callarg(strconv.AppendUint, j, 1) == uint64(vals[j - old(ncalls(strconv.AppendUint))]) && callarg(strconv.AppendUint, j, 2) == 10
 
 //@ func (Encoder).AppendBools(e, dst, vals) res
-//@   props C01 C02
+//@   props C01
 //@   arith int
 //@   flag tags !binary_log
 //@   requires valueok(dst)
@@ -364,7 +428,7 @@ package json
 //@     decreases len(vals) - 1 - (rangeindex + 1)
 
 //@ func (Encoder).AppendStrings(e, dst, vals) res
-//@   props C01 C02
+//@   props C01
 //@   arith int
 //@   flag tags !binary_log
 //@   flag stream
@@ -376,7 +440,7 @@ package json
 //@     decreases len(vals) - 1 - (rangeindex + 1)
 
 //@ func (Encoder).AppendStringers(e, dst, vals) res
-//@   props C01 C02
+//@   props C01
 //@   arith int
 //@   flag tags !binary_log
 //@   requires valueok(dst) && JSONMarshalFunc != nil
@@ -387,14 +451,14 @@ package json
 //@     decreases len(vals) - 1 - (rangeindex + 1)
 
 //@ func (Encoder).AppendStringer(e, dst, val) res
-//@   props C01 C02
+//@   props C01
 //@   arith int
 //@   flag tags !binary_log
 //@   requires valueok(dst) && JSONMarshalFunc != nil
 //@   ensures emitsvalue(res, dst)
 
 //@ func appendFloat(dst, val, bitSize, precision) res
-//@   props C01 C02
+//@   props C01
 //@   arith int
 //@   flag tags !binary_log
 //@   flag assumepost strconv.AppendFloat emits a JSON number; the in-place rewrite of a trailing e-0d to e-d keeps it one (the byte automaton is not run backwards over an in-place edit)
@@ -402,21 +466,21 @@ package json
 //@   ensures emitsvalue(res, dst)
 
 //@ func (Encoder).AppendFloat32(e, dst, val, precision) res
-//@   props C01 C02
+//@   props C01
 //@   arith int
 //@   flag tags !binary_log
 //@   requires valueok(dst)
 //@   ensures emitsvalue(res, dst)
 
 //@ func (Encoder).AppendFloat64(e, dst, val, precision) res
-//@   props C01 C02
+//@   props C01
 //@   arith int
 //@   flag tags !binary_log
 //@   requires valueok(dst)
 //@   ensures emitsvalue(res, dst)
 
 //@ func (Encoder).AppendFloats32(e, dst, vals, precision) res
-//@   props C01 C02
+//@   props C01
 //@   arith int
 //@   flag tags !binary_log
 //@   requires valueok(dst)
@@ -427,7 +491,7 @@ package json
 //@     decreases len(vals) - 1 - (rangeindex + 1)
 
 //@ func (Encoder).AppendFloats64(e, dst, vals, precision) res
-//@   props C01 C02
+//@   props C01
 //@   arith int
 //@   flag tags !binary_log
 //@   requires valueok(dst)
@@ -438,14 +502,14 @@ package json
 //@     decreases len(vals) - 1 - (rangeindex + 1)
 
 //@ func (Encoder).AppendInterface(e, dst, i) res
-//@   props C01 C02
+//@   props C01
 //@   arith int
 //@   flag tags !binary_log
 //@   requires valueok(dst) && JSONMarshalFunc != nil
 //@   ensures emitsvalue(res, dst)
 
 //@ func (Encoder).AppendType(e, dst, i) res
-//@   props C01 C02
+//@   props C01
 //@   arith int
 //@   flag tags !binary_log
 //@   requires valueok(dst)
@@ -460,21 +524,21 @@ package json
 //@   ensures lex(res) == 0 && mode(res) == OBJ_NEXT && stk(res) == stk(dst) && prefix(res, dst) && len(res) > len(dst) && res[len(res)-1] != '{'
 
 //@ func (Encoder).AppendIPAddr(e, dst, ip) res
-//@   props C01 C02
+//@   props C01
 //@   arith int
 //@   flag tags !binary_log
 //@   requires valueok(dst)
 //@   ensures emitsvalue(res, dst)
 
 //@ func (Encoder).AppendIPPrefix(e, dst, pfx) res
-//@   props C01 C02
+//@   props C01
 //@   arith int
 //@   flag tags !binary_log
 //@   requires valueok(dst)
 //@   ensures emitsvalue(res, dst)
 
 //@ func (Encoder).AppendMACAddr(e, dst, ha) res
-//@   props C01 C02
+//@   props C01
 //@   arith int
 //@   flag tags !binary_log
 //@   requires valueok(dst)
@@ -484,14 +548,14 @@ package json
 // time.go
 
 //@ func (Encoder).AppendTime(e, dst, t, format) res
-//@   props C01 C02
+//@   props C01
 //@   arith int
 //@   flag tags !binary_log
 //@   requires valueok(dst) && cleanlayout(format)
 //@   ensures emitsvalue(res, dst)
 
 //@ func (Encoder).AppendTimes(e, dst, vals, format) res
-//@   props C01 C02
+//@   props C01
 //@   arith int
 //@   flag tags !binary_log
 //@   requires valueok(dst) && cleanlayout(format)
@@ -502,7 +566,7 @@ package json
 //@     decreases len(vals) - 1 - (rangeindex + 1)
 
 //@ func appendUnixTimes(dst, vals) res
-//@   props C01 C02
+//@   props C01
 //@   arith int
 //@   flag tags !binary_log
 //@   requires valueok(dst)
@@ -513,7 +577,7 @@ package json
 //@     decreases len(vals) - 1 - (rangeindex + 1)
 
 //@ func appendUnixNanoTimes(dst, vals, div) res
-//@   props C01 C02
+//@   props C01
 //@   arith int
 //@   flag tags !binary_log
 //@   requires valueok(dst) && div != 0
@@ -524,14 +588,14 @@ package json
 //@     decreases len(vals) - 1 - (rangeindex + 1)
 
 //@ func (Encoder).AppendDuration(e, dst, d, unit, useInt, precision) res
-//@   props C01 C02
+//@   props C01
 //@   arith int
 //@   flag tags !binary_log
 //@   requires valueok(dst) && (useInt ==> unit != 0)
 //@   ensures emitsvalue(res, dst)
 
 //@ func (Encoder).AppendDurations(e, dst, vals, unit, useInt, precision) res
-//@   props C01 C02
+//@   props C01
 //@   arith int
 //@   flag tags !binary_log
 //@   requires valueok(dst) && (useInt ==> unit != 0)
